@@ -153,6 +153,18 @@ func genC11(g *Gen, tier string) *Program {
 			p.Tasks = append(p.Tasks, ops)
 		}
 	}
+	if g.Bool(6) && c.Prefix == "" {
+		// two different identities built around an escape character (a name or a
+		// tag that ends in a backslash next to one that contains the delimiter):
+		// their documented keys differ, so they are two entries of the snapshot
+		tw := escapeTwins(g, pick(g, "p", "svc"), "a", "1", "b", "2")
+		for i, d := range tw[g.Intn(len(tw))] {
+			inc := int64(3 + 4*i)
+			p.Tasks = append(p.Tasks, d.ops(func(sv int) []Op {
+				return []Op{{K: "counter", S: sv, M: 1, Name: "c0"}, {K: "inc", M: 1, I: inc}, {K: "timer", S: sv, M: 2, Name: "t0"}, {K: "rec", M: 2, I: 1000 + inc}}
+			}))
+		}
+	}
 	if g.Bool(60) {
 		var ops []Op
 		for i := g.Range(1, 3); i > 0; i-- {
